@@ -1072,6 +1072,11 @@ func HandleDisconnectUser(cc *hotline.ClientConn, t *hotline.Transaction) (res [
 	clientID := [2]byte(t.GetField(hotline.FieldUserID).Data)
 	clientConn := cc.Server.ClientMgr.Get(clientID)
 
+	// Nobody holds that ID (any more): there is nobody to disconnect, and the requester must not be the one who goes.
+	if clientConn == nil {
+		return cc.NewErrReply(t, "That user is not connected any more.")
+	}
+
 	if clientConn.Authorize(hotline.AccessCannotBeDiscon) {
 		return cc.NewErrReply(t, clientConn.Account.Login+" is not allowed to be disconnected.")
 	}
@@ -1727,6 +1732,11 @@ func HandleInviteNewChat(cc *hotline.ClientConn, t *hotline.Transaction) (res []
 
 	// Client to Invite
 	targetID := t.GetField(hotline.FieldUserID).Data
+
+	// Nobody holds that ID (any more): there is nobody to invite, and the requester must not lose its connection over it.
+	if cc.Server.ClientMgr.Get([2]byte(targetID)) == nil {
+		return cc.NewErrReply(t, "That user is not connected any more.")
+	}
 
 	// Create a new chat with self as initial member.
 	newChatID := cc.Server.ChatMgr.New(cc)
